@@ -448,17 +448,23 @@ func (w *world) judge(p proxyT) *verdict {
 // ---- DestinationRule selection (A.1): looked up in the proxy's namespace, then the service's
 // namespace, then the root namespace; only rules exported to the proxy's namespace.
 
-// drFor returns the marker of the rule that applies to (proxy namespace, service instance), 0 if none.
-// With several candidate rules in the deciding namespace the answer is not determined by the text
-// (merge order); such worlds are not generated.
-func (w *world) drFor(proxyNS string, s *svcT) int {
+// drFor returns the markers of the rules that may apply to (proxy namespace, service instance): the
+// rules exported to the proxy in the first namespace of the lookup order that has one ({0} if none).
+// With several exported rules for the host in that namespace the text does not fix how they combine
+// (consolidation by creation order), so any of them is accepted; what is fixed is that a rule NOT
+// exported to the proxy is never among them.
+func (w *world) drFor(proxyNS string, s *svcT) []int {
 	for _, ns := range []string{proxyNS, s.NS, rootNS} {
+		var out []int
 		for i := range w.DR {
 			d := &w.DR[i]
 			if d.NS == ns && hostSubset(s.Host, d.Host) && w.drExported(d, proxyNS) {
-				return d.Marker
+				out = append(out, d.Marker)
 			}
 		}
+		if len(out) > 0 {
+			return out
+		}
 	}
-	return 0
+	return []int{0}
 }
